@@ -2,7 +2,7 @@
 # Determinism self-test: for every engine, start PROCS processes with the same
 # VERIF_SEED across GOMAXPROCS 1/4/16 (plain build; conc also -race) and diff
 # their per-run trace dumps.  Any difference is a machinery bug.
-#   selftest/determinism.sh [PROCS=30] [RUNS=300]
+#   selftest/determinism.sh [PROCS=30] [RUNS=300]      (VERIF_REPO=<copy> runs it on a modified tree, e.g. one with goroutines)
 set -u
 cd "$(dirname "$0")/.."
 export GOFLAGS=-mod=mod GOPROXY=off GOSUMDB=off GOTOOLCHAIN=local
@@ -11,7 +11,7 @@ PROCS=${1:-30}; RUNS=${2:-300}; SEED=${VERIF_SEED:-1}
 S=${VERIF_SCRATCH:-/var/tmp}/verif-determinism-$$
 rm -rf "$S"; mkdir -p "$S/dumps"
 trap 'rm -rf "$S"' EXIT
-bin/simgen -repo /repo -simrt sim/simrt -harness sim/harness -out "$S/t" || exit 2
+bin/simgen -repo "${VERIF_REPO:-/repo}" -simrt sim/simrt -harness sim/harness -out "$S/t" || exit 2
 (cd "$S/t/v5" && go build -trimpath -o "$S/worker" ./zzverif/worker && go build -race -trimpath -o "$S/worker-race" ./zzverif/worker) || exit 2
 mkdir -p "$S/bin"
 (cd "$S/t/pristine/v5" && go build -trimpath -o "$S/bin/json-patch-v5" ./cmd/json-patch) || exit 2
